@@ -461,6 +461,13 @@ type TraceVerdict struct {
 // ValidateTraces has TLC validate the compact event lists (Result.Events)
 // against the protocol of SoyLexProto/SoyLexParse (module SoyLexParseTrace).
 func ValidateTraces(ctx *core.Ctx, events []string, label string) ([]TraceVerdict, error) {
+	return ValidateTracesMode(ctx, events, label, true)
+}
+
+// ValidateTracesMode: strict = the rendez-vous protocol as it stands; not
+// strict = only the rules that do not depend on channel buffering (see
+// SoyLexParseTrace.tla).
+func ValidateTracesMode(ctx *core.Ctx, events []string, label string, strict bool) ([]TraceVerdict, error) {
 	var sb strings.Builder
 	for i, e := range events {
 		sb.WriteString(fmt.Sprintf(`{"id":%d,"ev":[`, i))
@@ -486,7 +493,12 @@ func ValidateTraces(ctx *core.Ctx, events []string, label string) ([]TraceVerdic
 	if d := os.Getenv("VERIF_DEV_KEEPTRACE"); d != "" {
 		os.WriteFile(d, []byte(sb.String()), 0o644)
 	}
-	cfg := "CONSTANTS Skew = 2 ZeroBound = 3\nINIT Init\nNEXT Next\nINVARIANT Report\nPOSTCONDITION TraceAccepted\nCHECK_DEADLOCK FALSE\n"
+	consts := "CONSTANTS Skew = 2 ZeroBound = 3 Strict = TRUE"
+	if !strict {
+		consts = "CONSTANTS Skew = 1000000 ZeroBound = 3 Strict = FALSE"
+		label += "(buffering-independent rules)"
+	}
+	cfg := consts + "\nINIT Init\nNEXT Next\nINVARIANT Report\nPOSTCONDITION TraceAccepted\nCHECK_DEADLOCK FALSE\n"
 	res, err := ctx.RunTLC(core.TLCOpts{Module: "SoyLexParseTrace", Cfg: cfg, Files: map[string][]byte{"lexparse_trace.ndjson": []byte(sb.String())},
 		Workers: 1, Timeout: 8 * time.Minute, Label: label})
 	if err != nil {
